@@ -174,4 +174,10 @@ def specs_nof(tier):
         s.append((NF_, "unit_expand_operators", {"old": old, "new": new, "timeout_ms": t}))
     for a_ops, b_ops in (([(B, "a"), (F, "d")], [(B, "b"), (L, "l"), (F, "c")]), ([(B, "a")], [(B, "a")]), ([(S, "s")], [(B, "b"), (S, "s")]), ([(F, "c"), (F, "e")], [(F, "d")])):
         s.append((NF_, "unit_combine_operators", {"a_ops": a_ops, "b_ops": b_ops, "timeout_ms": t}))
+    # thin wrappers: which of the operations above they call, on which operands, in which order
+    for m in ("__sub__", "__radd__", "__rmul__", "__truediv__"):
+        for k in ("nof", "convertible", "inconvertible"):
+            s.append(("contracts.nof_wrappers", "unit_wrapper", {"method": m, "other_kind": k, "timeout_ms": t}))
+    for nt, nm in ((0, 2), (1, 1), (2, 3), (3, 2)):
+        s.append(("contracts.nof_wrappers", "unit_is_particle_conserving", {"nterms": nt, "nmodes": nm, "timeout_ms": t}))
     return s
